@@ -217,15 +217,26 @@ pub const RAW_WEAK: usize = 2;
 unsafe impl<'gc> Collect<'gc> for RawNode<'gc> {
     const NEEDS_TRACE: bool = true;
     fn trace<T: Trace<'gc>>(&self, cc: &mut T) {
-        for s in &self.s {
-            cc.trace(&s.get());
-        }
+        // the first slot of each kind is traced directly, the second through a trait object
+        // (`dyn DynCollect`: the object-safe adapter the crate provides for user trait objects),
+        // which has to hand strong pointers on as strong and weak pointers as weak
+        cc.trace(&self.s[0].get());
+        let s1 = self.s[1].get();
+        let d: &(dyn DynEdge<'gc> + 'gc) = &s1;
+        cc.trace(d);
         cc.trace(&self.fp);
-        for w in &self.w {
-            cc.trace(&w.get());
-        }
+        cc.trace(&self.w[0].get());
+        let w1 = self.w[1].get();
+        let d: &(dyn DynEdge<'gc> + 'gc) = &w1;
+        cc.trace(d);
     }
 }
+
+/// A user trait object made collectable with `dyn_collect!`: whatever is traced through it goes
+/// through the crate's object-safe adapter (`DynCollect::dyn_trace`).
+pub trait DynEdge<'gc>: gc_arena::collect::DynCollect<'gc> {}
+impl<'gc, T: Collect<'gc>> DynEdge<'gc> for T {}
+gc_arena::collect::dyn_collect!(dyn DynEdge<'gc> + 'gc);
 
 /// `Gc<Lock<CellBody>>`: a one-strong-one-weak cell mutated through `Gc<Lock<_>>::set`. No
 /// destructor (Copy), so it is only visible at the allocator seam.
